@@ -30,7 +30,7 @@ META = {
 }
 RETURNS = ["none", "zero", "false", "emptystr", "emptylist", "str", "object", "dict", "biglist", "exception_instance", "one",
            "awaitable", "awaitable", "generator", "function", "type"]  # also values that could be mistaken for work still to do
-RAISES = ["LookupError", "KeyError", "ValueError", "CustomWithArgs", "Unprintable", "RuntimeError", "OSError", "AssertionError", "StopAsyncIteration",
+RAISES = ["LookupError", "KeyError", "ValueError", "CustomWithArgs", "Unprintable", "ReadOnlyError", "NotedError", "RuntimeError", "OSError", "AssertionError", "StopAsyncIteration",
           "TimeoutError", "InvalidStateError", "FuturesCancelledError", "ExceptionGroup"]
 BRIDGE_KINDS = {"TimeoutError", "InvalidStateError", "FuturesCancelledError", "CancelledError"}
 ARGS = [([], {}), ([1], {}), ([], {"k": 1}), ([1, "two"], {"k": 1}), ([[1, 2]], {"opt": {"x": 1}}),
